@@ -10,7 +10,7 @@ from lib import ast_io
 from lib.terms import g_str
 
 ID = 'C10'
-IMPORTS = ['Lang.Front']
+IMPORTS = ['Lang.Front', 'Lang.FrontCompile']
 THEOREMS = ['C10_rule_scan_exact', 'C10_rule_scan_none', 'C10_lex_maximal_munch', 'C10_lex_exact', 'C10_lex_error_spec',
             'C10_lex_complete', 'C10_parse_yield', 'C10_ast_clause_count', 'C10_front_whole_input',
             'C10_parse_complete', 'C10_parse_complete_fuel', 'C10_parse_spec', 'C10_parse_none_spec', 'C10_parse_unambiguous',
@@ -106,10 +106,29 @@ VARIABLES = ['X', 'Y', 'Z', '_', '_', '_G1', 'Abc', '_x', 'X1']
 UNOPS = ['-', '+']
 BINOPS = ['=', '\\=', '==', '\\==', '<', '>', '=<', '>=']
 
+_CP_RANGES = [(0x20, 0x7e), (0x20, 0x7e), (0xa0, 0xff), (0x100, 0x24f), (0x370, 0x3ff), (0x400, 0x4ff), (0x300, 0x36f), (0x4e00, 0x4fff),
+              (0x1f600, 0x1f64f), (0x1, 0x1f), (0x7f, 0x9f), (0x2000, 0x206f), (0xfe00, 0xfe0f), (0xfff0, 0xffff), (0x10000, 0x1007f),
+              (0xe0000, 0xe007f), (0x10fff0, 0x10ffff), (0x5d0, 0x5ea), (0x600, 0x6ff)]
+
+def rnd_cp(rng):
+    lo, hi = rng.choice(_CP_RANGES)
+    return chr(rng.randint(lo, hi))
+
+def rnd_quoted(rng):
+    """a quoted atom with random content: any code points except backslash (and no surrogates), quotes written as \\'"""
+    n = rng.choice([0, 1, 1, 2, 3, 5, 8])
+    body = ''
+    for _ in range(n):
+        c = rnd_cp(rng)
+        if c == '\\': c = '/'
+        body += c
+    return "'" + body.replace("'", "\\'") + "'"
+
 def g_atom(rng, callable_bias=False):
     r = rng.random()
     if r < 0.7: return rng.choice(ATOMS)
-    if r < 0.88: return rng.choice(STRINGS)
+    if r < 0.80: return rng.choice(STRINGS)
+    if r < 0.88: return rnd_quoted(rng)
     if r < 0.98: return rng.choice(ATOMS)
     return rng.choice(NUMERALS)
 
@@ -237,7 +256,8 @@ def group(prog):
 
 # ------------------------------------------------------------------ corruptions
 
-FOREIGN = ['#', '"', '{', '}', '\x00', 'é', 'λ', '\U0001F600', '$', '&', '~', '^', '*', '?', '@', '`', '\\', ':', '\x0c', ' ', ' ']
+FOREIGN = ['\xa0', '\u2028', '\x0b', '\x85', '\ufeff', '\u3000', '\u200b', 'É', 'ß', 'ａ', '１', '＿', '’', '‘', '«', '\u0301', '\U0001F600',
+           '#', '"', '{', '}', '\x00', 'é', 'λ', '\U0001F600', '$', '&', '~', '^', '*', '?', '@', '`', '\\', ':', '\x0c', ' ', ' ']
 INSERTABLE = ['.', ':-', '\\+', ',', '->', ';', '(', ')', '/', '|', 'true', 'fail', '!', 'X', '_', 'a', 'foo', '7', '-', '=',
               "'s'", '[', ']', ',', ',', ')', '.', '(']
 
@@ -270,7 +290,7 @@ def corruptions(rng, clauses, n):
         elif k == 'char-replace':
             i = rng.randrange(len(base)); src = base[:i] + rng.choice(list(".,()'|[]:-;\\% aX_1") + FOREIGN) + base[i + 1:]
         elif k == 'foreign':
-            i = rng.randrange(len(base) + 1); src = base[:i] + rng.choice(FOREIGN) + base[i:]
+            i = rng.randrange(len(base) + 1); src = base[:i] + (rng.choice(FOREIGN) if rng.random() < 0.7 else rnd_cp(rng)) + base[i:]
         elif k == 'unterminated-end':
             src = base + rng.choice([" 'unterminated", " foo('abc", "'", " 'it\\'", "\n'x\n"])
         elif k == 'unterminated-boundary':
@@ -358,7 +378,7 @@ def builtin_corpus():
     return [{'src': s, 'kind': 'corpus', 'base_clauses': 1} for s in srcs]
 
 def model_expr(case):
-    return '(run_both %s)' % g_str(case['src'])
+    return '(run_all %s)' % g_str(case['src'])
 
 # ------------------------------------------------------------------ implementation
 
@@ -387,7 +407,7 @@ def impl(case):
         out['tokens'] = _exc(e)
     try:
         code = C.compile_prolog_from_string(src)
-        out['compile'] = ['ok', sorted(set(re.findall(r'^def (\w+)\(', code, re.M)))]
+        out['compile'] = ['ok', sorted(set(re.findall(r'^def (\w+)\(', code, re.M))), code]
     except RecursionError:
         raise
     except Exception as e:
@@ -409,7 +429,7 @@ def _accepted(io):
 def compare(case, io, mo):
     if not isinstance(io, dict):
         return None
-    mlex, mfront = mo
+    mlex, mfront, mtext = mo
     if case['kind'] in ('grammar', 'valid-ast', 'valid-ast-spaced') and mfront[0] in ('lex-error', 'parse-error'):
         return 'tie: the model refuses a sentence derived from the grammar (%s)' % mfront[0]
     # token streams
@@ -442,7 +462,42 @@ def compare(case, io, mo):
     want = sorted({'%s_%d' % (g[0], g[1]) for g in prog})
     if io['compile'][1] != want:
         return 'the compiled code defines %r, the model program has the predicates %r' % (io['compile'][1], want)
+    # the whole pipeline: the text returned by compile_prolog_from_string is the text the model compiler emits for the
+    # model AST of the source (every clause, in order, nothing else) -- compared byte for byte when every name in the
+    # program is a plain printable-ASCII string (the model of repr() for other strings belongs to C12)
+    if _repr_simple(mfront[1]):
+        _STATS['text_compared'] += 1
+        if mtext[0] != 'text':
+            return 'tie: the model compiler produced no text'
+        if io['compile'][2] != mtext[1]:
+            a, b = io['compile'][2].split('\n'), mtext[1].split('\n')
+            for i, (x, y) in enumerate(zip(a, b)):
+                if x != y:
+                    return 'the emitted text differs from the model compiler\'s text for the model AST at line %d: %r vs %r' % (i + 1, x, y)
+            return 'the emitted text differs from the model compiler\'s text in length (%d vs %d lines)' % (len(a), len(b))
     return None
+
+_STATS = {'text_compared': 0}
+
+def _plain(st):
+    return all(32 <= ord(ch) < 127 and ch not in "'\\" for ch in st)
+
+def _repr_simple(prog):
+    def term(t):
+        k = t[0]
+        if k in ('atom',): return _plain(t[1])
+        if k in ('num', 'var'): return True
+        if k == 'fun': return _plain(t[1]) and all(term(a) for a in t[2])
+        if k == 'list': return all(term(a) for a in t[1])
+        if k == 'pair': return term(t[1]) and term(t[2])
+        return False
+    def body(b):
+        k = b[0]
+        if k == 'call': return _plain(b[1]) and all(term(a) for a in b[2])
+        if k in ('and', 'or', 'if'): return body(b[1]) and body(b[2])
+        if k == 'not': return body(b[1])
+        return True
+    return all(_plain(c[0]) and all(term(a) for a in c[1]) and body(c[2]) for c in prog)
 
 def oracle(case, io):
     """conditions that need no model"""
@@ -506,7 +561,7 @@ def shrink(case):
 
 def distribution(cases, obs):
     d = {'by_kind': {}, 'accepted': 0, 'rejected_by_lexer': 0, 'rejected_by_parser': 0, 'rejected_later': 0,
-         'too_large': 0, 'length_hist': {}, 'clauses_hist': {}}
+         'too_large': 0, 'length_hist': {}, 'clauses_hist': {}, 'emitted_text_compared_with_model': _STATS['text_compared']}
     for c, o in zip(cases, obs):
         if not isinstance(o, dict):
             continue
